@@ -4,11 +4,14 @@
 pub mod common;
 pub mod c01;
 pub mod c02;
+pub mod c04;
 pub mod c05;
 pub mod c07;
 pub mod c08;
 pub mod c09;
+pub mod c10;
 pub mod c14;
+pub mod c20;
 
 use crate::case::{Case, RunOut};
 use crate::rng::Rng;
@@ -35,10 +38,13 @@ pub fn all() -> Vec<Scenario> {
     let mut v = Vec::new();
     v.extend(c01::scenarios());
     v.extend(c02::scenarios());
+    v.extend(c04::scenarios());
     v.extend(c05::scenarios());
     v.extend(c07::scenarios());
     v.extend(c08::scenarios());
     v.extend(c09::scenarios());
+    v.extend(c10::scenarios());
     v.extend(c14::scenarios());
+    v.extend(c20::scenarios());
     v
 }
